@@ -138,8 +138,32 @@ def extra_id(ids):
     return None
 
 
-def mutate_inflight(arg, mode, write):
+BLE_POOL = [(1, 10), (1, 11), (1, 12), (1, 13)]
+
+
+def mutated(items, mode, write, pool=None):
+    """(mode actually applied, content of the caller's LIST after the in-flight change)"""
+    items = [tuple(x) for x in items]
+    ids = [x[:2] for x in items]
+    if pool is BLE_POOL:          # BLE looks characteristics up by iid only: an iid no item uses
+        used = {k[1] for k in ids}
+        ex = next((k for k in pool if k[1] not in used), None)
+    else:
+        ex = extra_id(ids)
+    if ex is None or not ids or mode == "clear":
+        return "clear", []
+    if mode == "append":
+        return mode, items + [ex + (EXTRA_VALUE,) if write else ex]
+    if mode == "replace":
+        return mode, [ex + (EXTRA_VALUE,), ids[0] + (EXTRA_VALUE + 1,)] if write else [ex]
+    return mode, [ids[0] + (EXTRA_VALUE + 2,) if write else ex] + items[1:]
+
+
+def mutate_inflight(arg, mode, write, pool=None):
     """arg: the very list / set object the caller passed.  Returns what was done (for the histogram)."""
+    if isinstance(arg, list):
+        mode, arg[:] = mutated(arg, mode, write, pool)
+        return "list:" + mode
     ids = [tuple(x[:2]) for x in arg]
     ex = extra_id(ids)
     if ex is None or not ids:
@@ -407,6 +431,8 @@ class Rig:
     _armed = None
     inflight_done = None
 
+    inflight_pool = None
+
     def arm(self, arg, case, write):
         """returns arg; when the case asks for it, the accessory stub changes `arg` when the first request arrives"""
         self.inflight_done = None
@@ -417,7 +443,7 @@ class Rig:
         if self._armed is not None:
             arg, mode, write = self._armed
             self._armed = None
-            self.inflight_done = mutate_inflight(arg, mode, write)
+            self.inflight_done = mutate_inflight(arg, mode, write, self.inflight_pool)
 
     def set_perms(self, perms):
         from aiohomekit.model import AccessoriesState
@@ -691,24 +717,64 @@ class BleRig(Rig):
         self.calls = []
 
         async def fake_ble_request(client, ek, dk, opcode, endpoint, iid, data=None):
+            self.fire()
             self.calls.append((opcode.value, iid))
             q = self.queues.get((iid, opcode.value), [])
             return PDUStatus(q.pop(0) if q else 0), b""
         notes = []
         with mock.patch.object(self.bp, "ble_request", fake_ble_request):
             try:
-                res = await self.pairing.put_characteristics(wrap([(a, i, v) for (a, i, v, _, _) in case["items"]], case))
+                self.inflight_pool = BLE_POOL
+                res = await self.pairing.put_characteristics(
+                    self.arm(wrap([(a, i, v) for (a, i, v, _, _) in case["items"]], case), case, True))
                 out = fmt_read_ble(canon_write_result(res))
             except self.bp.PDUStatusError as e:
                 out = f"err {status_val(e.status)}"
             except Exception as e:  # noqa
                 out = exc_class(e)
+            finally:
+                self._armed = None
         for ev in self.log:
             if len(ev) != 1:                       # BLE announces each accepted item on its own
                 notes.append(f"?call-with-{len(ev)}-ids")
             for k, v in ev.items():
                 notes.append(f"{ks(k)}={val_code(v.get('value'))}")
         return ("N " + " ".join(notes)).strip() + " ; " + out
+
+
+def ble_live_case(case):
+    """BlePairing.put_characteristics walks the caller's list item by item, one request at a time: when the list changes
+    during the FIRST request, what is written afterwards is the changed list from index 1 on.  Both views are faithful
+    to the property as long as what is reported / announced is what the accessory was sent and accepted; this builds
+    the case 'as actually walked', each item with the statuses the per-(iid, opcode) queues will give it."""
+    items3 = [(a, i, v) for (a, i, v, _, _) in case["items"]]
+    _, new = mutated(items3, case["inflight"], True, BLE_POOL)
+    eff = items3[:1] + new[1:]
+    queues = {}
+    for (a, i, v, s1, s2) in case["items"]:
+        p = case["perms"][str(i)].split(",")
+        if "tw" in p:
+            queues.setdefault((i, 4), []).append(s1)
+            queues.setdefault((i, 5), []).append(s2)
+        elif "pw" in p:
+            queues.setdefault((i, 2), []).append(s1)
+    out, failed = [], False
+
+    def pop(key):
+        q = queues.get(key, [])
+        return q.pop(0) if q else 0
+    for (a, i, v) in eff:
+        p = case["perms"][str(i)].split(",")
+        s1 = s2 = 0
+        if not failed:
+            if "tw" in p:
+                s1 = pop((i, 4))
+                s2 = pop((i, 5)) if not s1 else 0
+            elif "pw" in p:
+                s1 = pop((i, 2))
+            failed = bool(s1 or s2)
+        out.append((a, i, v, s1, s2))
+    return dict(case, items=out)
 
 
 def fmt_read_ble(R):
@@ -1823,8 +1889,22 @@ def run(ctx):
     else:
         for idx, c in enumerate(bcases):
             c["container"] = pick_container(idx + 4, [(a, i, v) for (a, i, v, _, _) in c["items"]], ordered=True)
-    for idx, (c, m) in enumerate(zip(bcases, [canon_model_ble(a) for a in drv.batch([line_bleput(x) for x in bcases])])):
-        res = loop.run_until_complete(ble.put(c))
+        extra = inflight_copies(bcases, "items", ["list"], 4)
+        for c in extra:
+            c["perms"] = {**{str(i): RW for _, i in BLE_POOL}, **c["perms"]}
+        bcases = bcases + extra
+    live = [ble_live_case(c) if c.get("inflight") else c for c in bcases]
+    m_live = [canon_model_ble(a) for a in drv.batch([line_bleput(x) for x in live])]
+    ble_sem = collections.Counter()
+    for idx, (c0, m0) in enumerate(zip(bcases, [canon_model_ble(a) for a in drv.batch([line_bleput(x) for x in bcases])])):
+        res = loop.run_until_complete(ble.put(c0))
+        c, m = c0, m0
+        if c0.get("inflight"):
+            # the argument changed during the first request: snapshot semantics (what was handed over) and live
+            # iteration (what the loop walked) are both faithful reports of what the accessory was sent
+            if res != m0 and res == m_live[idx]:
+                c, m = live[idx], m_live[idx]
+            ble_sem["snapshot" if res == m0 else ("live" if res == m_live[idx] else "neither")] += 1
         orc = oracle_bleput(c, res)
         if orc is None:
             want_calls = []
@@ -1840,14 +1920,16 @@ def run(ctx):
                         break
             if ble.calls != want_calls:
                 orc = ("request-sequence", f"bleput: requests sent (opcode, iid) {ble.calls}, want {want_calls}")
-        judge("bleput", dict(c, requests_sent=[list(x) for x in ble.calls]), res, m, orc)
-        cov.case("b" + json.dumps(c, sort_keys=True), bool(c["items"]),
+        judge("bleput", dict(c0, requests_sent=[list(x) for x in ble.calls]), res, m, orc)
+        cov.case("b" + json.dumps(c0, sort_keys=True), bool(c["items"]),
                  sample=dict(stream="bleput", case=c, impl=res) if idx % 1501 == 3 else None,
                  ble_value_kinds="|".join(sorted({val_kind(it[2]) for it in c["items"]})),
+                 ble_inflight=c0.get("inflight") or "-",
                  ble_src=c["src"], ble_items=len(c["items"]), ble_container=c.get("container", "list"), ble_result=res.partition(" ; ")[2].split(" ")[0],
                  ble_perm_classes="|".join(sorted({perm_class(c["perms"][str(it[1])]) for it in c["items"]})),
                  ble_has_decor=any(d in c["perms"][str(it[1])].split(",") for it in c["items"] for d in PERM_DECOR[1:]))
     loop.close()
+    cov.extra["ble_inflight_semantics_seen"] = dict(ble_sem)
 
     # ---- extraction cross-check: a sample of the requests above, re-evaluated with vm_compute inside Coq
     if not replay:
